@@ -1,6 +1,8 @@
 import TTV.Model.AsyncRun
 import TTV.Spec.C14
 import TTV.Lemmas.Reactor
+import TTV.Generated.AsyncSkel
+import TTV.Generated.SpinnerSkel
 /-! # C14 — Deferred-returning tests under `AsynchronousDeferredRunTest`
 
 Theorems about the model `TTV.AsyncRun` (`Model/Reactor.lean`, `Model/AsyncRun.lean`): the runner's staging and
@@ -29,6 +31,9 @@ This property is *partial* with respect to the Twisted runtime: Deferred chainin
 * `C14_in_time_iff_recorded` : the declarative `inTime` ⇔ `Spinner.run` returned the chain's verdict (determined
                                before `_clean`'s iterations)
 * `C14_loop_ends_by_crash`   : the reactor loop ends by a crash within the model's fuel
+* `C14_src_chain_tree`, `C14_src_chain_start`, `C14_src_chain_resume`, `C14_src_chain_tail`, `C14_src_account`, `C14_src_iterations`,
+  `C14_src_shapes`             : translator tie - the model's chain and accounting are the interpretation (`TTV.AsyncSkel`) of
+                               `_run_deferred`, `_run_cleanups`, `_blocking_run_deferred`, `_run_core` … as re-read from `_runtest.py`
 
 Proof structure: `Reach` (what a chain step can do) · `Inv1` (queue/clock/spinner invariant of the loop, incl. the
 iteration in which each queued call was scheduled) · `pot` (termination) · `Run`/`Susp`/`Fin` (chain invariant through
@@ -3374,6 +3379,135 @@ theorem C14_loop_ends_by_crash (p : Prog) :
     ((afterSpin p).sp.success = none →
       ∀ c ∈ (afterSpin p).calls, ¬ (c.time ≤ (afterSpin p).now ∧ eligible (afterSpin p).u.iter c = true)) :=
   ⟨(spin_end p).crashed, (spin_end p).noDue⟩
+
+/-! # The translator tie: the model is the interpretation of the source of `_runtest.py`
+
+`harness/pyasync2lean.py` re-reads the asynchronous runner on every run and emits `TTV/Generated/AsyncSkel.lean`; each theorem
+first checks that what was found IS the reference term (`by decide`) and then that its interpretation is the hand-written model. -/
+
+section src
+open TTV.AsyncSkel
+
+/-- the nested callbacks of `_run_deferred`, with the references between them resolved, are the reference decision tree: setUp;
+caught (by IDENTITY with the `exception_caught` marker) → fail, cleanups; else the test, tearDown (each marking a failure when
+caught), cleanups; then `clean_up_done`, `force_failure`, the success guard -/
+theorem C14_src_chain_tree : flatten Generated.AsyncSkel.runDeferred = refFlat := by
+  have e : Generated.AsyncSkel.runDeferred = refSrc := by decide
+  rw [e]; decide
+
+/-- the sub-trees of the reference tree -/
+def flatC : Flat := .cleanups refTail
+def flatT : Flat := .run .tearDown (.ifCaught true (.markFail flatC) flatC)
+def flatB : Flat := .run .test (.ifCaught true (.markFail flatT) flatT)
+
+theorem refFlat_eq : refFlat = .run .setUp (.ifCaught true (.markFail flatC) flatB) := rfl
+
+theorem exec_flatC (p : Prog) (x : Option (Option Exc)) (w : W) : AsyncSkel.exec p flatC x w = cleanUp w := by
+  simp [flatC, AsyncSkel.exec]
+
+theorem exec_after_tearDown (p : Prog) (r : Option Exc) (w : W) :
+    AsyncSkel.exec p (.ifCaught true (.markFail flatC) flatC) (some r) w = afterTearDown r w := by
+  cases r with
+  | none => simp only [AsyncSkel.exec, exec_flatC, afterTearDown, Chain.noteMain]; rfl
+  | some k => simp only [AsyncSkel.exec, exec_flatC, afterTearDown, Chain.noteMain]; rfl
+
+theorem exec_flatT (p : Prog) (x : Option (Option Exc)) (w : W) : AsyncSkel.exec p flatT x w = startTearDown p w := by
+  unfold flatT startTearDown
+  simp only [AsyncSkel.exec, stageOf, nameOf, posOf]
+  cases statusOf p.tearDown.beh with
+  | pending => rfl
+  | completed r => exact exec_after_tearDown p r _
+
+theorem exec_after_body (p : Prog) (r : Option Exc) (w : W) :
+    AsyncSkel.exec p (.ifCaught true (.markFail flatT) flatT) (some r) w = afterBody p r w := by
+  cases r with
+  | none => simp only [AsyncSkel.exec, exec_flatT, afterBody, Chain.noteMain]; rfl
+  | some k => simp only [AsyncSkel.exec, exec_flatT, afterBody, Chain.noteMain]; rfl
+
+theorem exec_flatB (p : Prog) (x : Option (Option Exc)) (w : W) : AsyncSkel.exec p flatB x w = startBody p w := by
+  unfold flatB startBody
+  simp only [AsyncSkel.exec, stageOf, nameOf, posOf]
+  cases statusOf p.body.beh with
+  | pending => rfl
+  | completed r => exact exec_after_body p r _
+
+theorem exec_after_setUp (p : Prog) (r : Option Exc) (w : W) :
+    AsyncSkel.exec p (.ifCaught true (.markFail flatC) flatB) (some r) w = afterSetUp p r w := by
+  cases r with
+  | none => simp only [AsyncSkel.exec, exec_flatB, afterSetUp]
+  | some k => simp only [AsyncSkel.exec, exec_flatC, afterSetUp]; rfl
+
+/-- running that tree over the model's primitives IS the model's chain: from the start … -/
+theorem C14_src_chain_start (p : Prog) (w : W) :
+    AsyncSkel.exec p (flatten Generated.AsyncSkel.runDeferred) none w = startSetUp p w := by
+  rw [C14_src_chain_tree, refFlat_eq]
+  unfold startSetUp
+  simp only [AsyncSkel.exec, stageOf, nameOf, posOf]
+  cases statusOf p.setUp.beh with
+  | pending => rfl
+  | completed r => exact exec_after_setUp p r _
+
+/-- … and when the Deferred of the stage it waits for fires (`pos`: setUp, the test method, tearDown) -/
+theorem C14_src_chain_resume (p : Prog) (r : Option Exc) (w : W)
+    (hpos : w.u.pos = .setUp ∨ w.u.pos = .body ∨ w.u.pos = .tearDown) :
+    (match contOf w.u.pos (flatten Generated.AsyncSkel.runDeferred) with
+     | some k => AsyncSkel.exec p k (some r) w
+     | none => w) = resume p r w := by
+  rw [C14_src_chain_tree, refFlat_eq]
+  rcases hpos with h | h | h <;> rw [h]
+  · simp only [contOf, posOf, if_true, resume, h]
+    exact exec_after_setUp p r w
+  · have : contOf Pos.body (Flat.run StageRef.setUp (Flat.ifCaught true (Flat.markFail flatC) flatB)) =
+        some (.ifCaught true (.markFail flatT) flatT) := by decide
+    rw [this]
+    simp only [resume, h]
+    exact exec_after_body p r w
+  · have : contOf Pos.tearDown (Flat.run StageRef.setUp (Flat.ifCaught true (Flat.markFail flatC) flatB)) =
+        some (.ifCaught true (.markFail flatC) flatC) := by decide
+    rw [this]
+    simp only [resume, h]
+    exact exec_after_tearDown p r w
+
+/-- the tail of every path (`clean_up_done`: the last cleanup exception is recorded and fails the test; `force_failure`; the final
+Deferred fires with `len(fails) == 0`) is `Chain.finish` -/
+theorem C14_src_chain_tail (c : Chain) : tailC refTail c = some (Chain.finish c) := by
+  unfold Chain.finish
+  cases hl : c.lastExc <;> cases hf : c.forced <;> simp [tailC, refTail, hl, hf]
+
+/-- `_run_cleanups`, `_run_user`, `_log_user_exception`, the helpers: the shapes the model transcribes (the live stack popped last
+registered first; every failure - any BaseException - reported and only the last one remembered; the cleanup called through a thunk,
+waited for on a Deferred of the runner's own) -/
+theorem C14_src_shapes :
+    Generated.AsyncSkel.runCleanups = refCleanups ∧ Generated.AsyncSkel.runCleanupsIsInlineCallbacks = true ∧
+    Generated.AsyncSkel.runUser = refRunUser ∧ Generated.AsyncSkel.logUserException = .raisesAndReportsExcInfo ∧
+    Generated.AsyncSkel.flushLoggedErrors = .flushesGlobalObserver ∧
+    Generated.AsyncSkel.assertFailsWith = .successRaisesFailureTrapsGiven ∧
+    Generated.AsyncSkel.errorObserverSetUp = .installedThroughLegacyWrapper := by decide
+
+/-- `_blocking_run_deferred` and `_run_core` as found in the source are the model's `account`: NoResultError → reported +
+`result.stop()`; TimeoutError → reported; then the logged errors, the unhandled errors in Deferreds (only when `Spinner.run`
+returned), the junk - each an error and no success -/
+theorem C14_src_account (result : Res) (excs : List Exc) (logged dropped : Nat) (junk : Bool) :
+    let a := coreI Generated.AsyncSkel.blocking result logged dropped junk Generated.AsyncSkel.runCore
+      { excs := excs, successful := false, unhandled := 0, stopReq := false }
+    account result excs logged dropped junk = { excs := a.excs, successful := a.successful, stopReq := a.stopReq } := by
+  have e1 : Generated.AsyncSkel.blocking = refBlocking := by decide
+  have e2 : Generated.AsyncSkel.runCore = refCore := by decide
+  rw [e1, e2]
+  cases result <;> by_cases h1 : logged > 0 <;> by_cases h2 : dropped > 0 <;> cases junk <;>
+    simp [account, coreI, bI, refCore, refBlocking, h1, h2]
+
+/-- the obligatory iterations: none for the plain runner, `brokenIterations` for `…ForBrokenTwisted` - as many as the model runs -/
+theorem C14_src_iterations (p : Prog) :
+    afterIter p = Nat.repeat (iterateB p (bound p))
+      (if p.broken then Generated.AsyncSkel.brokenIterations else Generated.SpinnerSkel.obligatoryIterations) (afterSpin p) := by
+  have e1 : Generated.AsyncSkel.brokenIterations = 2 := by decide
+  have e2 : Generated.SpinnerSkel.obligatoryIterations = 0 := by decide
+  rw [e1, e2]
+  unfold afterIter
+  cases p.broken <;> rfl
+
+end src
 
 /-! ## non-vacuity: concrete programs, evaluated by the kernel -/
 
